@@ -406,14 +406,14 @@ def py_norm(parts):
 def py_expected(text, keys, till_in=False):
     parts, stop = py_parts(text)
     words = [p for p, _ in parts]
-    if words[0] == "item":
-        return "item", parts[0][1] + 1, parts[0][1] + 1
     if till_in and "in" in words[1:]:
         k = words.index("in", 1)
         return py_norm(words[:k]), parts[k - 1][1] + 1, parts[k - 1][1] + 1
     for k in range(len(parts), 0, -1):
         if py_norm(words[:k]) in keys:
             return py_norm(words[:k]), parts[k - 1][1] + 1, parts[k - 1][1] + 1
+    if words[0] == "item":
+        return "item", parts[0][1] + 1, parts[0][1] + 1
     return py_norm(words), parts[-1][1] + 1, stop
 
 
@@ -436,7 +436,7 @@ def run(check, mirror, tier):
                           "bound names are in the normal form Name::new gives them (names bound from raw text with spaces around symbols are outside)",
                           "String/Vec<String>/str::trim/join/replace/== by their std contracts over character sequences; HashSet::contains as "
                           "uninterpreted membership; Scope::flatten_keys not executed (the key set is the unknown)",
-                          "the first word is not `item` (the filter variable tweak is a separate obligation)"]
+                          "a candidate whose first word is `item` and none of whose prefixes is bound is the filter variable `item` alone (the lexer's filter tweak)"]
     jobs = []
 
     def mk_setup(till_in, first=None, split=None):
@@ -457,11 +457,6 @@ def run(check, mirror, tier):
                 for k, want in enumerate(split):
                     if k + 1 < N:
                         ex.assume(st, z3.If(n.e <= k + 1, 4, z_class(chars[k + 1].e)) == want)
-            # the first word is not `item`
-            if N >= 4:
-                item = z3.And([chars[k].e == ord("item"[k]) for k in range(4)] + [n.e >= 4])
-                after = z3.Or(n.e == 4, z3.Not(z_name_part(chars[4].e))) if N > 4 else z3.BoolVal(True)
-                ex.assume(st, z3.Not(z3.And(item, after)))
             if till_in and N >= 2:
                 # the iteration variable does not start with the keyword `in` (words of names are not keywords)
                 is_in = z3.And(chars[0].e == ord("i"), chars[1].e == ord("n"), n.e >= 2)
@@ -555,7 +550,13 @@ def run(check, mirror, tier):
                 here = z3.And(none_longer, B[k - 1])
                 cases.append(z3.Implies(here, z3.And(same(got, norm(parts[:k])), pos == ends[k - 1] + 1, z3.BoolVal(kind == "Name"))))
                 none_longer = z3.And(none_longer, z3.Not(B[k - 1]))
-            cases.append(z3.Implies(none_longer, z3.And(same(got, norm(parts)), pos >= ends[-1] + 1, pos <= stop)))
+            whole = z3.And(same(got, norm(parts)), pos >= ends[-1] + 1, pos <= stop)
+            w0, sym0 = parts[0]
+            if len(w0) == 4 and not sym0:
+                # no prefix is bound and the first word is `item`: the implicit filter variable, alone
+                is_item = z3.And([chars[w0[j]].e == ord("item"[j]) for j in range(4)])
+                whole = z3.If(is_item, z3.And(same(got, norm(parts[:1])), pos == ends[0] + 1, z3.BoolVal(kind == "Name")), whole)
+            cases.append(z3.Implies(none_longer, whole))
             res = z3.And(cases)
             if till_in:
                 # the iteration variable is everything before the first word `in` that is not the first part
@@ -632,8 +633,8 @@ def run(check, mirror, tier):
                 return True, "consume_name on %r with bound names %r -> name %r, cursor %d; specified name %r, cursor %d" % (text, keys, got_name, got_pos, want_name, lo)
         return False, "consume_name on %r agrees with the oracle for every key set over its prefixes" % text
 
-    def add(oid, till_in, split=None, budget=900, reach=True):
-        jobs.append(lambda c: decide(c, crate, oid, mk_setup(till_in, None, split), post, replay, rb, models=NAME_MODELS, unwind=3 * N + 6, describe=desc, prefer=prefer,
+    def add(oid, till_in, split=None, budget=900, reach=True, first=None):
+        jobs.append(lambda c: decide(c, crate, oid, mk_setup(till_in, first, split), post, replay, rb, models=NAME_MODELS, unwind=3 * N + 6, describe=desc, prefer=prefer,
                                      merge=MERGE, need_reach=reach or None, max_cex=3, budget_s=budget,
                                      known_predicates=KNOWN_PRED, timeout_ms=20000))
 
@@ -664,6 +665,10 @@ def run(check, mirror, tier):
                 mp = max_parts(sp)
                 reach = (["reach:matched a proper prefix"] if mp >= 2 else []) + (["reach:three parts"] if mp >= 3 else [])
                 add("%s/%s" % (base, "".join(CN[k] for k in sp)), till_in, sp, reach=reach)
+    # names that begin with the word `item` (the filter variable): a bound name resolves as any other, an unbound candidate is `item` alone
+    for k5 in range(5):
+        if N > 4 or k5 == 4:
+            add("name_token/item/%s" % CN[k5], False, (0, 0, 0, k5), reach=(["reach:matched a proper prefix"] if k5 in (1,) else []), first=["i", "t", "e", "m"])
     run_parallel(check, jobs)
 
 
